@@ -24,7 +24,6 @@ Section Native.
   Variable nstate : Type.
   Variable native_step : nstate -> nmsg -> option (nstate * list nevent).
   Variable q_rewards : nstate -> Z -> list (Z * Z) * bool.
-  Variable q_rewards_touch : nstate -> Z -> nstate.
   Variable q_balance : nstate -> Z -> Z.
   Variable q_delegated_bonded : nstate -> Z -> list vinfo.
   Variable q_bonded : nstate -> list vinfo.
@@ -32,22 +31,74 @@ Section Native.
   Variable typed_hash : Z -> typed -> Z.
   Variable recover : Z -> Z -> option Z.
 
-  Notation step := (cpc_step nstate native_step q_rewards q_rewards_touch q_balance q_delegated_bonded q_bonded chain_id typed_hash recover).
+  Notation step := (cpc_step nstate native_step q_rewards q_balance q_delegated_bonded q_bonded chain_id typed_hash recover).
   Notation native := (run_native nstate native_step).
+  Notation submission := (native_prog nstate native_step q_rewards q_balance q_delegated_bonded q_bonded chain_id typed_hash recover).
+  Notation history_A := (run_A nstate native_step q_rewards q_balance q_delegated_bonded q_bonded chain_id typed_hash recover).
+  Notation history_B := (run_B nstate native_step q_rewards q_balance q_delegated_bonded q_bonded chain_id typed_hash recover).
+  Notation issued := (issued_A nstate native_step q_rewards q_balance q_delegated_bonded q_bonded chain_id typed_hash recover).
+  Notation stepA := (step_A nstate native_step q_rewards q_balance q_delegated_bonded q_bonded chain_id typed_hash recover).
 
   (* every native message a successful call issues — any method, any arguments, any signature — has delegator = caller *)
   Theorem C11_acts_for_caller : forall s caller c s' logs ret ms,
     step s caller c = Some (s', logs, ret, ms) -> Forall (fun m => msg_delegator m = caller) ms.
-  Proof. exact (acts_for_caller nstate native_step q_rewards q_rewards_touch q_balance q_delegated_bonded q_bonded chain_id typed_hash recover). Qed.
+  Proof. exact (acts_for_caller nstate native_step q_rewards q_balance q_delegated_bonded q_bonded chain_id typed_hash recover). Qed.
+
+  (* ... along every history: whatever sequence of precompile calls (any senders, any call paths, any methods, arguments
+     and signatures), native messages and other state changes chain A goes through, every message the precompile hands
+     to the native message servers names the immediate caller of that very call as delegator *)
+  Theorem C11_history_acts_for_caller : forall ops s,
+    Forall (fun p => msg_delegator (snd p) = fst p) (issued s ops).
+  Proof. exact (issued_A_own nstate native_step q_rewards q_balance q_delegated_bonded q_bonded chain_id typed_hash recover). Qed.
+
+  (* THE CALL IS THE NATIVE SUBMISSION.  [submission s d c] is written down independently of the precompile (Model:
+     guard / first_msgs / second_msgs / native_prog): what account d would submit natively in one transaction.  The
+     precompile call by d succeeds exactly when that submission succeeds and announces at least one staking /
+     distribution event, ends in the same state, issues the same messages, and its logs are the image of the
+     submission's events. Both directions, every method. *)
+  Theorem C11_call_is_native_submission : forall s caller c,
+    step s caller c =
+    match submission s caller c with
+    | None => None
+    | Some (s', evs, ms) =>
+        if existsb counted evs then Some (s', flat_map (logs_of_event caller) evs, true, ms) else None
+    end.
+  Proof.
+    intros s caller c.
+    rewrite (cpc_step_is_native_prog nstate native_step q_rewards q_balance q_delegated_bonded q_bonded chain_id typed_hash recover).
+    unfold of_prog, emit. destruct (submission s caller c) as [[[s' evs] ms]|]; [|reflexivity].
+    destruct (existsb counted evs); reflexivity.
+  Qed.
 
   (* the effect of a successful call is exactly the effect of its native messages run in order by the native message
-     servers (from the state the reward query left, for the withdraw-all paths), all of them succeeding, and its logs are
-     the image of exactly the events those messages produced, at least one of which is a staking/distribution event *)
+     servers from the same state, all of them succeeding, and its logs are the image of exactly the events those
+     messages produced, at least one of which is a staking/distribution event *)
   Theorem C11_equiv_native : forall s caller c s' logs ret ms,
     step s caller c = Some (s', logs, ret, ms) ->
-    exists evs, native (pre_state nstate q_rewards_touch s caller c) ms = Some (s', evs)
-                /\ logs = flat_map (logs_of_event caller) evs /\ existsb counted evs = true.
-  Proof. exact (equiv_native nstate native_step q_rewards q_rewards_touch q_balance q_delegated_bonded q_bonded chain_id typed_hash recover). Qed.
+    exists evs, native s ms = Some (s', evs) /\ logs = flat_map (logs_of_event caller) evs /\ existsb counted evs = true.
+  Proof. exact (equiv_native nstate native_step q_rewards q_balance q_delegated_bonded q_bonded chain_id typed_hash recover). Qed.
+
+  (* TWIN HISTORIES.  Given that the native message servers announce every message they execute with one of the four
+     event types (checked on every twin-chain case), chain A (precompile calls) and chain B (the native submissions by
+     the same accounts) are in the same state after ANY sequence of calls, native messages and common state changes,
+     from any state: same delegations, entries, rewards and balances, whatever they are. *)
+  Theorem C11_twin_histories_agree :
+    (forall s m s' evs, native_step s m = Some (s', evs) -> existsb counted evs = true) ->
+    forall ops s, history_A s ops = history_B s ops.
+  Proof. exact (twin_histories_agree nstate native_step q_rewards q_balance q_delegated_bonded q_bonded chain_id typed_hash recover). Qed.
+
+  (* THIRD PARTIES.  For any per-account observation that the native message servers change for nobody but the
+     message's own delegator (balance, delegations, unbonding and redelegation entries: checked by the driver), a
+     precompile call changes it for nobody but the immediate caller — per call and at every position of a history. *)
+  Theorem C11_third_parties_untouched : forall (obs : Type) (acct : nstate -> Z -> obs),
+    (forall s m s' evs x, native_step s m = Some (s', evs) -> x <> msg_delegator m -> acct s' x = acct s x) ->
+    (forall s caller c s' logs ret ms x, step s caller c = Some (s', logs, ret, ms) -> x <> caller -> acct s' x = acct s x) /\
+    (forall s sender path c x, x <> precompile_caller sender path -> acct (stepA s (OCall nstate sender path c)) x = acct s x).
+  Proof.
+    intros obs acct H. split.
+    - exact (third_parties_untouched nstate native_step q_rewards q_balance q_delegated_bonded q_bonded chain_id typed_hash recover obs acct H).
+    - exact (history_third_parties_untouched nstate native_step q_rewards q_balance q_delegated_bonded q_bonded chain_id typed_hash recover obs acct H).
+  Qed.
 
   (* delegate / undelegate / redelegate / withdrawReward are the one native message with delegator := caller, no more
      and no less: same success, same state, logs from its events *)
@@ -59,29 +110,29 @@ Section Native.
       map_result nstate caller (MsgBeginRedelegate caller src dst a) (native_step s (MsgBeginRedelegate caller src dst a)) /\
     step s caller (CWithdrawReward v) =
       map_result nstate caller (MsgWithdrawDelegatorReward caller v) (native_step s (MsgWithdrawDelegatorReward caller v)).
-  Proof. exact (direct_calls_are_native nstate native_step q_rewards q_rewards_touch q_balance q_delegated_bonded q_bonded chain_id typed_hash recover). Qed.
+  Proof. exact (direct_calls_are_native nstate native_step q_rewards q_balance q_delegated_bonded q_bonded chain_id typed_hash recover). Qed.
 
   Theorem C11_nonpositive_amount_rejected : forall s caller v src dst a, a <= 0 ->
     step s caller (CDelegate v a) = None /\ step s caller (CUndelegate v a) = None /\
     step s caller (CRedelegate src dst a) = None /\ step s caller (CTransfer caller a) = None.
-  Proof. exact (nonpositive_amount_rejected nstate native_step q_rewards q_rewards_touch q_balance q_delegated_bonded q_bonded chain_id typed_hash recover). Qed.
+  Proof. exact (nonpositive_amount_rejected nstate native_step q_rewards q_balance q_delegated_bonded q_bonded chain_id typed_hash recover). Qed.
 
   (* signed variants: the message's delegator equals the caller AND the signer recovered for this chain id *)
   Theorem C11_signed_needs_both : forall s caller m sig r,
     step s caller (CDelegateByMessage m sig) = Some r ->
     sm_delegator m = caller /\ recover (typed_hash chain_id (TStaking m)) sig = Some (sm_delegator m) /\
     sm_valid m = true.
-  Proof. exact (signed_needs_both nstate native_step q_rewards q_rewards_touch q_balance q_delegated_bonded q_bonded chain_id typed_hash recover). Qed.
+  Proof. exact (signed_needs_both nstate native_step q_rewards q_balance q_delegated_bonded q_bonded chain_id typed_hash recover). Qed.
 
   Theorem C11_signed_withdraw_needs_both : forall s caller m sig r,
     step s caller (CWithdrawRewardsByMessage m sig) = Some r ->
     wm_delegator m = caller /\ recover (typed_hash chain_id (TWithdraw m)) sig = Some (wm_delegator m) /\
     wm_valid m = true.
-  Proof. exact (signed_withdraw_needs_both nstate native_step q_rewards q_rewards_touch q_balance q_delegated_bonded q_bonded chain_id typed_hash recover). Qed.
+  Proof. exact (signed_withdraw_needs_both nstate native_step q_rewards q_balance q_delegated_bonded q_bonded chain_id typed_hash recover). Qed.
 
   Theorem C11_transfer_only_to_self : forall s caller to a r,
     step s caller (CTransfer to a) = Some r -> to = caller /\ 0 < a.
-  Proof. exact (transfer_only_to_self nstate native_step q_rewards q_rewards_touch q_balance q_delegated_bonded q_bonded chain_id typed_hash recover). Qed.
+  Proof. exact (transfer_only_to_self nstate native_step q_rewards q_balance q_delegated_bonded q_bonded chain_id typed_hash recover). Qed.
 
   (* withdrawRewards(): only validators whose truncated reward reaches the minimum are withdrawn from *)
   Theorem C11_withdraw_all_shape : forall s d m, In m (withdraw_all_msgs nstate q_rewards s d) ->
@@ -116,23 +167,40 @@ Section Native.
     (forall s m s' evs, native_step s m = Some (s', evs) -> Forall (ev_for (msg_delegator m)) evs) ->
     forall s caller c s' logs ret ms,
     step s caller c = Some (s', logs, ret, ms) -> Forall (fun l => log_delegator l = caller) logs.
-  Proof. exact (logs_for_caller nstate native_step q_rewards q_rewards_touch q_balance q_delegated_bonded q_bonded chain_id typed_hash recover). Qed.
+  Proof. exact (logs_for_caller nstate native_step q_rewards q_balance q_delegated_bonded q_bonded chain_id typed_hash recover). Qed.
 
-  (* views are the native queries; balanceOf is bank balance plus pending rewards. (Definitional in the model: that the
-     real view methods return the native queries' numbers is decided on every twin-chain step by the driver.) *)
-  Variable q_delegation_tokens : nstate -> Z -> Z -> Z.
-  Variable q_bonded_total : nstate -> Z -> Z.
-  Variable q_reward : nstate -> Z -> Z -> Z.
-  Variable q_rewards_total : nstate -> Z -> Z.
+  (* views are the native queries: a view reports the native query's number; where the native side says "no
+     delegation" delegationOf / rewardOf report 0; where the native query fails the view fails; balanceOf is bank
+     balance plus pending rewards. (Definitional in the model: that the real view methods return the native queries'
+     numbers is decided on every twin-chain step by the driver, against the gRPC queriers.) *)
+  Variable q_delegation_tokens : nstate -> Z -> Z -> qres.
+  Variable q_bonded_total : nstate -> Z -> qres.
+  Variable q_reward : nstate -> Z -> Z -> qres.
+  Variable q_rewards_total : nstate -> Z -> qres.
   Notation vstep := (view_step nstate q_balance q_delegation_tokens q_bonded_total q_reward q_rewards_total).
-  Theorem C11_views_eq_native_queries : forall s a v,
-    vstep s (VDelegationOf a v) = q_delegation_tokens s a v /\ vstep s (VTotalDelegationOf a) = q_bonded_total s a /\
-    vstep s (VRewardOf a v) = q_reward s a v /\ vstep s (VRewardsOf a) = q_rewards_total s a /\
-    vstep s (VBalanceOf a) = q_balance s a + vstep s (VRewardsOf a).
-  Proof. intros. cbn. auto. Qed.
+  Theorem C11_views_eq_native_queries : forall s a v z,
+    (q_delegation_tokens s a v = QOk z -> vstep s (VDelegationOf a v) = Some z) /\
+    (q_bonded_total s a = QOk z -> vstep s (VTotalDelegationOf a) = Some z) /\
+    (q_reward s a v = QOk z -> vstep s (VRewardOf a v) = Some z) /\
+    (q_rewards_total s a = QOk z -> vstep s (VRewardsOf a) = Some z /\ vstep s (VBalanceOf a) = Some (q_balance s a + z)) /\
+    (q_delegation_tokens s a v = QNoDelegation -> vstep s (VDelegationOf a v) = Some 0) /\
+    (q_reward s a v = QNoDelegation -> vstep s (VRewardOf a v) = Some 0) /\
+    (q_reward s a v = QErr -> vstep s (VRewardOf a v) = None) /\
+    (q_rewards_total s a <> QOk z -> vstep s (VRewardsOf a) <> Some z).
+  Proof.
+    intros s a v z. cbn [view_step].
+    split; [intros ->; reflexivity|]. split; [intros ->; reflexivity|]. split; [intros ->; reflexivity|].
+    split; [intros ->; split; reflexivity|]. split; [intros ->; reflexivity|]. split; [intros ->; reflexivity|].
+    split; [intros ->; reflexivity|].
+    intros Hne E. apply Hne. destruct (q_rewards_total s a); cbn in E; congruence.
+  Qed.
 End Native.
 Print Assumptions C11_acts_for_caller.
+Print Assumptions C11_history_acts_for_caller.
+Print Assumptions C11_call_is_native_submission.
 Print Assumptions C11_equiv_native.
+Print Assumptions C11_twin_histories_agree.
+Print Assumptions C11_third_parties_untouched.
 Print Assumptions C11_direct_calls_are_native.
 Print Assumptions C11_nonpositive_amount_rejected.
 Print Assumptions C11_signed_needs_both.
@@ -166,7 +234,7 @@ Definition toy_step (s : list (Z * Z * Z)) (m : nmsg) : option (list (Z * Z * Z)
   | MsgBeginRedelegate d a b x => Some (s, [EvRedelegate a b x])
   | MsgUndelegate _ _ _ => None
   end.
-Definition toy := cpc_step (list (Z * Z * Z)) toy_step (fun _ _ => ([(5, 10 ^ 15); (6, 3)], false)) (fun s _ => s)
+Definition toy := cpc_step (list (Z * Z * Z)) toy_step (fun _ _ => ([(5, 10 ^ 15); (6, 3)], false))
   (fun _ _ => 100) (fun _ _ => []) (fun _ => [VInfo 5 30 1; VInfo 6 10 2; VInfo 7 20 0]) 9 (fun c _ => c) (fun h sg => if sg =? 1 then Some 42 else None).
 Example C11_examples :
   toy [] 42 (CDelegate 5 3) = Some ([(42, 5, 3)], [LDelegate 42 5 3], true, [MsgDelegate 42 5 3]) /\
@@ -182,3 +250,34 @@ Example C11_examples :
   pick_validator [VInfo 1 9 0; VInfo 2 3 5; VInfo 3 3 4] [] = Some 3 /\
   precompile_caller 1 [HCall 2; HDelegate 3; HCall 4; HCallCode 5; HDelegate 6] = 4.
 Proof. vm_compute. repeat split; congruence. Qed.
+
+(* the hypotheses of the conditional theorems are satisfiable: the toy module announces every message it executes,
+   its events and its per-account observation (the delegations of an account) concern the message's delegator only *)
+Example C11_toy_meets_hypotheses :
+  (forall s m s' evs, toy_step s m = Some (s', evs) -> existsb counted evs = true) /\
+  (forall s m s' evs, toy_step s m = Some (s', evs) -> Forall (ev_for (msg_delegator m)) evs) /\
+  (forall s m s' evs x, toy_step s m = Some (s', evs) -> x <> msg_delegator m ->
+     filter (fun e => fst (fst e) =? x) s' = filter (fun e => fst (fst e) =? x) s).
+Proof.
+  split; [|split].
+  - intros s m s' evs H. destruct m; cbn in H; inversion H; reflexivity.
+  - intros s m s' evs H. destruct m; cbn in H; inversion H; subst; repeat constructor.
+  - intros s m s' evs x H Hx. destruct m; cbn in H; inversion H; subst; try reflexivity.
+    cbn [filter fst msg_delegator] in *. destruct (del =? x) eqn:E; [apply Z.eqb_eq in E; congruence | reflexivity].
+Qed.
+
+(* a twin history on the toy module: a contract reached by CALL delegates, a forged signed message fails, a native
+   message interleaves, transfer withdraws and delegates; both chains end in the same non-trivial state *)
+Definition toy_ops : list (op (list (Z * Z * Z))) :=
+  [ OCall _ 42 [HCall 77] (CDelegate 5 3);
+    OCall _ 43 [] (CDelegateByMessage (StakingMessage ADelegate 42 (Some 5) 3 true OldDash) 1);
+    ONative _ (MsgDelegate 9 6 4);
+    OOther _ (fun s => (1, 1, 1) :: s);
+    OCall _ 42 [HDelegate 77] (CTransfer 42 50) ].
+Example C11_toy_twin_history :
+  let A := run_A _ toy_step (fun _ _ => ([(5, 10 ^ 15); (6, 3)], false)) (fun _ _ => 100) (fun _ _ => [])
+             (fun _ => [VInfo 5 30 1; VInfo 6 10 2; VInfo 7 20 0]) 9 (fun c _ => c) (fun h sg => if sg =? 1 then Some 42 else None) [] toy_ops in
+  let B := run_B _ toy_step (fun _ _ => ([(5, 10 ^ 15); (6, 3)], false)) (fun _ _ => 100) (fun _ _ => [])
+             (fun _ => [VInfo 5 30 1; VInfo 6 10 2; VInfo 7 20 0]) 9 (fun c _ => c) (fun h sg => if sg =? 1 then Some 42 else None) [] toy_ops in
+  A = B /\ A = [(42, 7, 50); (1, 1, 1); (9, 6, 4); (77, 5, 3)].
+Proof. vm_compute. split; reflexivity. Qed.
